@@ -29,6 +29,8 @@ def units(tier):
           "<=3 consecutive calls; alive/spawn_ok/reap_fails symbolic per call"),
         H("C12", M, "check_identity_inherited", t, ["loky.backend.spawn:get_preparation_data", "loky.backend.spawn:prepare"],
           "tracker fd/pid and mp tracker fd/pid unbounded symbolic ints, init_main flag symbolic"),
+        H("C12", "lokyverif.harness.c18_spawn", "check_launch", t, ["loky.backend.popen_loky_posix:Popen._launch"],
+          "the child is handed the pipe of the tracker that is current when it is spawned: tracker never started / running / dead with a stale fd recorded"),
         H("C12", "lokyverif.harness.c11_tracker", "check_signals_before_read", t, ["loky.backend.resource_tracker:main"],
           "0..2 requests before EOF"),
     ]
